@@ -234,14 +234,19 @@ def run_specs(ctx, res: Result, specs, label):
     try:
         os.chdir(scratch)
         for i, (variant, spec) in enumerate(specs):
-            relative, as_bytes = variant
+            relative, as_bytes = variant[0], variant[1]
+            spelling = variant[2] if len(variant) > 2 else "plain"
             shutil.rmtree(os.path.join(scratch, "b"), ignore_errors=True)
             make_tree(os.path.join(scratch, "b"), spec)
             dest = "b" if relative else os.path.join(scratch, "b")
             src = "a" if relative else os.path.join(scratch, "a")
+            if spelling == "odd":
+                # not in normpath form (a watch scheduled on "." or "/tmp//x"): the law is textual, it must hold all the same
+                dest, src = ("./b", "./a") if relative else (scratch + "//b", scratch + "//a")
             if as_bytes:
                 dest, src = os.fsencode(dest), os.fsencode(src)
-            meta = {"fn": "generate_sub_moved_events", "relative": relative, "bytes": as_bytes, "tree": sorted_spec(spec),
+            meta = {"fn": "generate_sub_moved_events", "relative": relative, "bytes": as_bytes, "spelling": spelling,
+                    "tree": sorted_spec(spec),
                     "src": repr(src), "dest": repr(dest)}
             # moved
             evs = list(generate_sub_moved_events(src, dest))
@@ -256,7 +261,7 @@ def run_specs(ctx, res: Result, specs, label):
             res.evaluations += 1
             res.hist("tree_entries", n)
             res.hist("tree_depth", d)
-            res.hist("variant", f"{'rel' if relative else 'abs'}/{'bytes' if as_bytes else 'str'}")
+            res.hist("variant", f"{'rel' if relative else 'abs'}/{'bytes' if as_bytes else 'str'}/{spelling}")
             collide = any(ints(dest) == ints(p)[-len(ints(dest)):] for _, p in listing if p != dest) or \
                 any(p.count(dest) > 1 for _, p in listing)
             res.hist("prefix_collision", collide)
@@ -415,11 +420,11 @@ def run(ctx) -> Result:
     rng = ctx.rng("trees")
     specs = corpus_specs()
     for c in ctx.corpus():
-        specs.append(((c["relative"], c["bytes"]), c["spec"]))
+        specs.append(((c["relative"], c["bytes"], c.get("spelling", "plain")), c["spec"]))
     names = ["a", "b", "ab", "ba", "c"]
     n_random = 150 if not ctx.thorough else 1500
     for i in range(n_random):
-        variant = (bool(i & 1), bool(i & 2))
+        variant = (bool(i & 1), bool(i & 2), "odd" if i % 5 == 4 else "plain")
         specs.append((variant, rand_spec(rng, names, 3, 3)))
     run_specs(ctx, res, specs, "random")
     # absolute chains: the scratch path is only known inside run_specs, so build them here with a probe dir
@@ -490,7 +495,7 @@ def replay(ctx, obj) -> int:
     if "tree" in case and isinstance(case["tree"], list):
         def unsort(t):
             return {n: (None if s is None else unsort(s)) for n, s in t}
-        run_specs(ctx, res, [((case["relative"], case["bytes"]), unsort(case["tree"]))], "replay")
+        run_specs(ctx, res, [((case["relative"], case["bytes"], case.get("spelling", "plain")), unsort(case["tree"]))], "replay")
     for f in res.failures:
         print("FAIL:", f.what, "observed", f.observed, "expected", f.expected)
     for m in res.mismatches:
